@@ -252,11 +252,16 @@ pub fn parse_linked_list(to_parse: &str) -> Result<Unifiable, String> {
         if open_quote {
             if equal_escape(&arguments_chars, ind, '"') {
                 open_quote = false;
-                num_quotes += 1;
+                if round_depth == 0 && square_depth == 0 { num_quotes += 1; }
             }
         }
         else {
-            if equal_escape(&arguments_chars, ind, ']') {
+            // Between double quotes, brackets and parentheses are
+            // ordinary characters, also inside an element.
+            if (round_depth != 0 || square_depth != 0) &&
+               equal_escape(&arguments_chars, ind, '"') {
+                open_quote = true;
+            } else if equal_escape(&arguments_chars, ind, ']') {
                 square_depth += 1;
             } else if equal_escape(&arguments_chars, ind, '[') {
                 square_depth -= 1;
